@@ -330,6 +330,9 @@ def run_property(P, tier, seed, scratch, args, t0):
     wall = time.time() - t0
     # ---- replay of violations -----------------------------------------------------------------
     os.makedirs(os.path.join(ROOT, "evidence", "replay"), exist_ok=True)
+    # replay files of earlier runs of this property must not be mistaken for this run's
+    for old_rp in glob.glob(os.path.join(ROOT, "evidence", "replay", "%s-*.json" % P)):
+        os.remove(old_rp)
     vio_lines = []
     for i, v in enumerate(violations):
         rp = os.path.join(ROOT, "evidence", "replay", "%s-%s-%d.json" % (P, v["unit"], i))
